@@ -1,6 +1,7 @@
 package keeper
 
 import (
+	errorsmod "cosmossdk.io/errors"
 	"cosmossdk.io/math"
 	sdk "github.com/cosmos/cosmos-sdk/types"
 	ammtypes "github.com/elys-network/elys/x/amm/types"
@@ -52,4 +53,26 @@ func (k Keeper) GetMTPHealth(ctx sdk.Context, mtp types.MTP, ammPool ammtypes.Po
 	// health = custody / liabilities
 	lr := custodyAmtInBaseCurrency.ToLegacyDec().Quo(totalLiabilities.ToLegacyDec())
 	return lr, nil
+}
+
+// CheckMTPHealthAfterHooks values the stored position again once the open hooks have run: health depends on
+// the owner's fee discount, which the hooks may have changed, and a position that was above the safety
+// factor when Open checked it must not be left at or below it (liquidatable in the same block).
+func (k Keeper) CheckMTPHealthAfterHooks(ctx sdk.Context, owner sdk.AccAddress, id uint64, baseCurrency string) error {
+	mtp, err := k.GetMTP(ctx, owner, id)
+	if err != nil {
+		return err
+	}
+	ammPool, err := k.GetAmmPool(ctx, mtp.AmmPoolId)
+	if err != nil {
+		return err
+	}
+	health, err := k.GetMTPHealth(ctx, mtp, ammPool, baseCurrency)
+	if err != nil {
+		return err
+	}
+	if health.LTE(k.GetSafetyFactor(ctx)) {
+		return errorsmod.Wrapf(types.ErrMTPUnhealthy, "(MtpHealth: %s)", health.String())
+	}
+	return nil
 }
